@@ -557,6 +557,7 @@ func (fc *FnCtx) doUnOp(x *ssa.UnOp) {
 		}
 		val := fc.loadPtr(fc.cur, v)
 		fc.cur.assume(fc.wfFacts(val))
+		fc.cur.assume(fc.entryHeapFacts(val))
 		fc.setVal(x, val)
 	case token.NOT:
 		fc.setVal(x, boolVal(not(v.L[0])))
@@ -1042,4 +1043,27 @@ func (fc *FnCtx) TranslateLemma() (err error) {
 		fc.obligeAt(fc.cur, "lemma", fmt.Sprintf("e%d", i+1), goal, 0, "lemma: "+fc.c.EnsuresSrc[i])
 	}
 	return nil
+}
+
+// entryHeapFacts: a reference read directly from the heap as it was at function entry denotes an object that
+// existed then, i.e. it is older than everything this function allocates.
+func (fc *FnCtx) entryHeapFacts(v Val) string {
+	suffix := fmt.Sprintf("@%d|", fc.entry.id)
+	var facts []string
+	ls := layout(v.T)
+	for i, l := range ls {
+		if l.Sort != SortRef || i >= len(v.L) {
+			continue
+		}
+		t := v.L[i]
+		// (select |name@<entry>| ref)
+		if strings.HasPrefix(t, "(select |") {
+			rest := t[len("(select "):]
+			end := strings.Index(rest[1:], "|")
+			if end > 0 && strings.HasSuffix(rest[:end+2], suffix) {
+				facts = append(facts, app("bvult", t, "allocbase"))
+			}
+		}
+	}
+	return and(facts...)
 }
